@@ -184,10 +184,13 @@ def _final_pick(prog: Program, res: Result):
 def _roles(prog: Program, res: Result):
     fi, eng, paths = sc.run_search(prog, Q, loop_bound=1)
     # reference sign
-    tail = [p for p in paths if p.exit_kind == "return" and isinstance(p.state.env.get("x_l_sign"), Rat)]
+    bn = sc.bisect_names(fi.node)
+    if bn["ref_sign"] is None:
+        raise AnalysisError(f"{Q}: the bisection loop does not compare against a sign defined before it")
+    tail = [p for p in paths if p.exit_kind == "return" and isinstance(p.state.env.get(bn["ref_sign"]), Rat)]
     if not tail:
-        raise AnalysisError(f"{Q}: no path defines the reference sign x_l_sign")
-    ref = tail[0].state.env["x_l_sign"]
+        raise AnalysisError(f"{Q}: no path defines the reference sign {bn['ref_sign']}")
+    ref = tail[0].state.env[bn["ref_sign"]]
     want = sym.call("sign", [sc.exc(Rat.atom("self.coordinates_domain[0]"), sc.MAXH)])
     ok = ref.equals(want)
     res.ob("R05.2", f"reference sign = sign of the excess at the left end (index 0) at max_height (got {ref.key()[:90]})", ok, prog.loc(fi, fi.node))
@@ -195,14 +198,15 @@ def _roles(prog: Program, res: Result):
         res.violation("R05.2", f"reference-sign|{ref.key()[:80]}", prog.loc(fi, fi.node), Q,
                       f"the sign the bisection compares against is {ref.key()[:120]}, not the sign of the excess of the left-end field at max_height")
     # one trip of the loop, symbolically
-    loops = [n for n in ast.walk(fi.node) if isinstance(n, ast.While) and any(isinstance(c, ast.Call) and attr_chain(c.func) == "self.calculate_excess" for c in ast.walk(n))]
-    if len(loops) != 1:
-        raise AnalysisError(f"{Q}: bisection loop not found")
-    loop = loops[0]
+    loop = bn["loop"]
+    if not any(isinstance(c, ast.Call) and attr_chain(c.func) == "self.calculate_excess" for c in ast.walk(loop)):
+        raise AnalysisError(f"{Q}: the bisection loop does not evaluate candidates")
     e2 = Engine(prog, fi, sc.SearchHooks(), loop_bound=1)
     st = State()
     L, R, S = Rat.atom("L"), Rat.atom("R"), Rat.atom("S")
-    st.env.update({"x_l_idx": L, "x_r_idx": R, "x_l_sign": S, "i": Rat.atom("i")})
+    st.env.update({bn["left"]: L, bn["right"]: R, bn["ref_sign"]: S})
+    if bn["counter"]:
+        st.env[bn["counter"]] = Rat.atom("i")
     finals = e2.run_block(loop.body, [st])
     n = 0
     half = (L + R) / Rat.const(2)
@@ -238,7 +242,7 @@ def _roles(prog: Program, res: Result):
             res.violation("R05.2", "step-evaluation", prog.loc(fi, ev[0].node), Q, "the bisection step does not evaluate the midpoint field at max_height")
         csign = sym.call("sign", [ev[0].data[3]])
         same = f.sign_of(csign - S)
-        nl, nr = f.env.get("x_l_idx"), f.env.get("x_r_idx")
+        nl, nr = f.env.get(bn["left"]), f.env.get(bn["right"])
         if same == frozenset("0"):
             okr = isinstance(nl, Rat) and nl.equals(c) and isinstance(nr, Rat) and nr.equals(R)
             res.ob("R05.2", "midpoint sign = reference sign -> the midpoint becomes the LEFT end, right end unchanged", okr, prog.loc(fi, loop))
@@ -275,7 +279,11 @@ def _nested(prog: Program, res: Result):
     # recorded drilling
     e = Engine(prog, fi, sc.SearchHooks())
     st = State()
-    st.env["i"] = Rat.atom("i")
+    # the loop's list index: the local that subscripts self.coordinates_domain_nested inside the loop
+    cnt = next((n.slice.id for n in ast.walk(loop) if isinstance(n, ast.Subscript) and attr_chain(n.value) == "self.coordinates_domain_nested" and isinstance(n.slice, ast.Name)), None)
+    if cnt is None:
+        raise AnalysisError(f"{q}: the loop does not index self.coordinates_domain_nested by a local")
+    st.env[cnt] = Rat.atom("i")
     finals = [f for f in e.run_block(loop.body, [st]) if f.exit is None or f.exit[0] in ("break", "continue")]
     rec = None
     for f in finals:
